@@ -21,18 +21,19 @@ import (
 
 // ---- schema (mirror of codegen.VerifModel JSON) ----
 type Field struct {
-	Name       string `json:"name"`
-	Typ        uint64 `json:"typ"`
-	Kind       string `json:"kind"`
-	Opt        bool   `json:"opt"`
-	Width      uint   `json:"width"`
-	Struct     string `json:"struct"`
-	GoType     string `json:"gotype"`
-	Sub        *Field `json:"sub"`
-	Key        *Field `json:"key"`
-	Val        *Field `json:"val"`
-	StartPoint string `json:"start"`
-	Covered    string `json:"covered"`
+	Name        string `json:"name"`
+	Typ         uint64 `json:"typ"`
+	Kind        string `json:"kind"`
+	Opt         bool   `json:"opt"`
+	Width       uint   `json:"width"`
+	Struct      string `json:"struct"`
+	GoType      string `json:"gotype"`
+	InnerNoCopy bool   `json:"inner_nocopy"`
+	Sub         *Field `json:"sub"`
+	Key         *Field `json:"key"`
+	Val         *Field `json:"val"`
+	StartPoint  string `json:"start"`
+	Covered     string `json:"covered"`
 }
 
 type Model struct {
@@ -214,6 +215,7 @@ type Gen struct {
 	R     *rand.Rand
 	Big   bool // allow 64 KiB-scale fields
 	depth int
+	sigOK bool // the struct being generated is the only member of its (nocopy) parent: it may carry a signature
 }
 
 var natVals = []uint64{0, 1, 2, 100, 252, 253, 254, 255, 256, 65535, 65536, 1<<32 - 1, 1 << 32, 1<<63 - 1, 1 << 63, 1<<64 - 1}
@@ -346,7 +348,7 @@ func (e *Entry) genKind(g *Gen, f *Field, t reflect.Type, elem bool) reflect.Val
 	case "signature":
 		// the signature length is an input of the encoder (X_estLen), which only the caller of the top-level
 		// encoder can provide: nested models are generated unsigned
-		if g.depth > 0 || g.R.Intn(3) == 0 {
+		if (g.depth > 0 && !(g.depth == 1 && g.sigOK)) || g.R.Intn(3) == 0 {
 			return v
 		}
 		l := []int{1, 2, 32, 64, 72, 100, 250, 252, 253, 256, 300}[g.R.Intn(11)]
@@ -401,6 +403,20 @@ func (e *Entry) genKind(g *Gen, f *Field, t reflect.Type, elem bool) reflect.Val
 func (e *Entry) GenStruct(g *Gen) reflect.Value {
 	p := reflect.New(e.T)
 	s := p.Elem()
+	// a top-level model whose members are nocopy structs (spec_2022.Packet): half of the time exactly one member,
+	// which may then be signed — its encoder's X_wireIdx stays valid in the outer wire, as spec.go relies on
+	var nocopyMembers []int
+	if g.depth == 0 {
+		for i := range e.M.Fields {
+			if e.M.Fields[i].Kind == "struct" && e.M.Fields[i].InnerNoCopy {
+				nocopyMembers = append(nocopyMembers, i)
+			}
+		}
+	}
+	only := -1
+	if len(nocopyMembers) > 0 && g.R.Intn(2) == 0 {
+		only = nocopyMembers[g.R.Intn(len(nocopyMembers))]
+	}
 	for i := range e.M.Fields {
 		f := &e.M.Fields[i]
 		if !isData(f.Kind) {
@@ -408,6 +424,17 @@ func (e *Entry) GenStruct(g *Gen) reflect.Value {
 		}
 		fv := s.FieldByName(f.Name)
 		if !fv.IsValid() || !fv.CanSet() {
+			continue
+		}
+		if only >= 0 {
+			if i != only {
+				continue
+			}
+			g.sigOK = true
+			g.depth++
+			fv.Set(e.modelByName(f.Struct).GenStruct(g))
+			g.depth--
+			g.sigOK = false
 			continue
 		}
 		fv.Set(e.genKind(g, f, fv.Type(), false))
@@ -418,11 +445,11 @@ func (e *Entry) GenStruct(g *Gen) reflect.Value {
 // ---- encode / parse through the generated code ----
 
 type EncResult struct {
-	Wire    enc.Wire
-	Length  uint64
-	Plan    []uint64
-	PlanOK  bool
-	Panic   string
+	Wire   enc.Wire
+	Length uint64
+	Plan   []uint64
+	PlanOK bool
+	Panic  string
 }
 
 // Encode runs XEncoder.Init + Encode on *T; signature fields get estLen = len(signature) and the value placed in
@@ -435,24 +462,36 @@ func (e *Entry) Encode(p reflect.Value) (res EncResult) {
 	}()
 	encp := reflect.New(e.E)
 	type sigslot struct {
+		enc  reflect.Value // the (possibly nested) encoder struct holding X_estLen / X_wireIdx
 		name string
 		val  []byte
 	}
 	var sigs []sigslot
-	for i := range e.M.Fields {
-		f := &e.M.Fields[i]
-		if f.Kind == "signature" {
-			w := p.Elem().FieldByName(f.Name)
-			if !w.IsNil() {
-				val := w.Interface().(enc.Wire).Join()
-				fe := encp.Elem().FieldByName(f.Name + "_estLen")
-				if fe.IsValid() && fe.CanSet() {
-					fe.SetUint(uint64(len(val)))
-					sigs = append(sigs, sigslot{f.Name, val})
+	var setSig func(x *Entry, val reflect.Value, encoder reflect.Value, nested bool)
+	setSig = func(x *Entry, val reflect.Value, encoder reflect.Value, nested bool) {
+		for i := range x.M.Fields {
+			f := &x.M.Fields[i]
+			switch {
+			case f.Kind == "signature":
+				w := val.FieldByName(f.Name)
+				if !w.IsNil() {
+					b := w.Interface().(enc.Wire).Join()
+					fe := encoder.FieldByName(f.Name + "_estLen")
+					if fe.IsValid() && fe.CanSet() {
+						fe.SetUint(uint64(len(b)))
+						sigs = append(sigs, sigslot{encoder, f.Name, b})
+					}
+				}
+			case f.Kind == "struct" && f.InnerNoCopy && !nested:
+				w := val.FieldByName(f.Name)
+				ne := encoder.FieldByName(f.Name + "_encoder")
+				if !w.IsNil() && ne.IsValid() {
+					setSig(x.modelByName(f.Struct), w.Elem(), ne, true)
 				}
 			}
 		}
 	}
+	setSig(e, p.Elem(), encp.Elem(), false)
 	encp.MethodByName("Init").Call([]reflect.Value{p})
 	out := encp.MethodByName("Encode").Call([]reflect.Value{p})
 	wire := out[0].Interface().(enc.Wire)
@@ -473,7 +512,7 @@ func (e *Entry) Encode(p reflect.Value) (res EncResult) {
 		}
 	}
 	for _, s := range sigs {
-		idx := int(encp.Elem().FieldByName(s.name + "_wireIdx").Int())
+		idx := int(s.enc.FieldByName(s.name + "_wireIdx").Int())
 		if idx >= 0 && idx < len(wire) {
 			wire[idx] = s.val
 		}
